@@ -771,6 +771,69 @@ mut("rec-release-handle-clears-thread-flag", "break", ["C07", "C20"], "release_h
             self.finalize();""", """        if guard_count == 0 && handle_count == 1 {
             THREAD_COLLECTING.with(|c| c.set(false));
             self.finalize();""")], ["REC-COLLECT-REENTRY"])
+mut("ok-unpin-test-after-dec", "benign", [], "unpin decrements the live count and tests the count it just wrote for zero",
+    [ed(I, """        let guard_count = self.guard_count.get();
+        self.guard_count.set(guard_count - 1);
+        if guard_count == 1 {
+            self.epoch.store(Epoch::starting(), Ordering::Release);""", """        self.guard_count.set(self.guard_count.get() - 1);
+        if self.guard_count.get() == 0 {
+            self.epoch.store(Epoch::starting(), Ordering::Release);""")])
+mut("ok-unpin-remaining", "benign", [], "unpin computes the remaining count after the collection and tests it for zero",
+    [ed(I, """        let guard_count = self.guard_count.get();
+        self.guard_count.set(guard_count - 1);
+        if guard_count == 1 {
+            self.epoch.store(Epoch::starting(), Ordering::Release);""", """        let remaining = self.guard_count.get() - 1;
+        self.guard_count.set(remaining);
+        if remaining == 0 {
+            self.epoch.store(Epoch::starting(), Ordering::Release);""")])
+mut("ok-thread-flag-helpers", "benign", [], "the thread-wide flag is read and written through two small helper functions",
+    [ed(I, "if guard_count == 1 && !self.collecting.get() && !THREAD_COLLECTING.with(Cell::get) {", "if guard_count == 1 && !self.collecting.get() && !thread_collecting() {"),
+     ed(I, "            THREAD_COLLECTING.with(|c| c.set(true));", "            set_thread_collecting(true);"),
+     ed(I, "            THREAD_COLLECTING.with(|c| c.set(false));", "            set_thread_collecting(false);"),
+     ed(I, "impl Local {\n", """fn thread_collecting() -> bool {
+    THREAD_COLLECTING.with(Cell::get)
+}
+
+fn set_thread_collecting(on: bool) {
+    THREAD_COLLECTING.with(|c| c.set(on));
+}
+
+impl Local {
+""")])
+mut("unpin-remaining-stale", "break", ["C02", "C16"], "unpin computes the remaining count from the value read on entry and tests that for zero (count written back is live)",
+    [ed(I, """        let guard_count = self.guard_count.get();
+        self.guard_count.set(guard_count - 1);
+        if guard_count == 1 {
+            self.epoch.store(Epoch::starting(), Ordering::Release);""", """        let remaining = guard_count - 1;
+        self.guard_count.set(self.guard_count.get() - 1);
+        if remaining == 0 {
+            self.epoch.store(Epoch::starting(), Ordering::Release);""")], ["EBR-GUARD-COUNT"])
+mut("ok-unpin-thread-flag-replace", "benign", [], "the thread-wide flag is tested and set in one Cell::replace (last operand of the gate)",
+    [ed(I, "if guard_count == 1 && !self.collecting.get() && !THREAD_COLLECTING.with(Cell::get) {", "if guard_count == 1 && !self.collecting.get() && !THREAD_COLLECTING.with(|c| c.replace(true)) {"),
+     ed(I, """            self.collecting.set(true);
+            THREAD_COLLECTING.with(|c| c.set(true));""", """            self.collecting.set(true);""")])
+mut("unpin-thread-flag-replace-first", "break", ["C07", "C20"], "the thread-wide flag is replaced by `true` as the FIRST operand of the gate and cleared after the block: a nested unpin whose gate fails later leaves... the outer collection's flag cleared by the inner unpin's unconditional clear",
+    [ed(I, "if guard_count == 1 && !self.collecting.get() && !THREAD_COLLECTING.with(Cell::get) {", "let was = THREAD_COLLECTING.with(|c| c.replace(true));\n        if guard_count == 1 && !self.collecting.get() && !was {"),
+     ed(I, """            self.collecting.set(true);
+            THREAD_COLLECTING.with(|c| c.set(true));""", """            self.collecting.set(true);"""),
+     ed(I, """            self.collecting.set(false);
+            THREAD_COLLECTING.with(|c| c.set(false));
+        }
+""", """            self.collecting.set(false);
+        }
+        THREAD_COLLECTING.with(|c| c.set(false));
+""")], ["REC-COLLECT-REENTRY"])
+mut("ok-unpin-thread-flag-save-restore", "benign", [], "the thread-wide flag is replaced by `true` before the gate and the value found is put back after the block",
+    [ed(I, "if guard_count == 1 && !self.collecting.get() && !THREAD_COLLECTING.with(Cell::get) {", "let was = THREAD_COLLECTING.with(|c| c.replace(true));\n        if guard_count == 1 && !self.collecting.get() && !was {"),
+     ed(I, """            self.collecting.set(true);
+            THREAD_COLLECTING.with(|c| c.set(true));""", """            self.collecting.set(true);"""),
+     ed(I, """            self.collecting.set(false);
+            THREAD_COLLECTING.with(|c| c.set(false));
+        }
+""", """            self.collecting.set(false);
+        }
+        THREAD_COLLECTING.with(|c| c.set(was));
+""")])
 mut("rec-collecting-cleared-in-schedule", "break", ["C07"], "schedule_collection clears the collecting flag",
     [ed(I, """        self.must_collect.set(true);
     }
@@ -1657,6 +1720,17 @@ combo("R10-5-counted-from-weak", ["C01", "C05"], "the shared two-RMW helper with
         None""", """        let rc = Rc::with_new_count(self.ptr);
         if rc.is_null() || unsafe { self.ptr.deref() }.is_not_destructed() { Some(rc) } else { None }""")],
       ["CW-SPLIT-INC-PROTECTED"])
+
+combo("R17-2-table-11", ["C01", "C05"], "the step table reads [1, 1]: no token from zero", "R17-2",
+      [ed(U, "const STRONG_STEP: [u32; 2] = [1, 2];", "const STRONG_STEP: [u32; 2] = [1, 1];")], ["CW-TOKEN"])
+combo("R16-5-release-old-test", ["C15", "C20"], "release_handle keeps the test of the OLD value (== 1) on the new one: finalizes with a handle left, never with none", "R16-5",
+      [ed(I, "if guard_count == 0 && handle_count == 0 {", "if guard_count == 0 && handle_count == 1 {")], ["EBR-FINALIZE-HANDOFF"])
+combo("R16-5-unpin-old-test", ["C13", "C16"], "unpin keeps the test of the OLD value (== 1) on the new one: the epoch is cleared with one guard left", "R16-5",
+      [ed(I, """        let guard_count = update(&self.guard_count, |n| n - 1);
+        if guard_count == 0 {""", """        let guard_count = update(&self.guard_count, |n| n - 1);
+        if guard_count == 1 {""")], ["EBR-GUARD-COUNT"])
+combo("R16-3-restores-after-set", ["C15", "C20"], "finalize reads the value to restore after having written the temporary 1", "R16-3",
+      [ed(I, "let saved_handle_count = self.handle_count.replace(1);", "self.handle_count.set(1);\n        let saved_handle_count = self.handle_count.get();")], ["EBR-FINALIZE-HANDOFF"])
 
 # behaviour-preserving refactorings written by sub-agents told to keep every interleaving's behaviour (selftest/refactors/)
 for f in sorted(glob.glob(os.path.join(HERE, "refactors", "*.diff"))):
